@@ -263,3 +263,7 @@ class u16(int):
 
 class u32(int):
     pass
+
+
+def sym_list(n, f, key=None):
+    return [f(j) for j in range(n)]
